@@ -6,6 +6,8 @@ from concurrent.futures import ThreadPoolExecutor
 os.chdir("/verif")
 man = json.load(open("MANIFEST.json"))
 pids = [c["property_id"] for c in man["checks"]]
+if os.environ.get("VERIF_PIDS"):   # restrict to some checks (results.json is then left alone)
+    pids = [x for x in pids if x in os.environ["VERIF_PIDS"].split(",")]
 # ids: "Cxx-n" = refactors/Cxx-n (behaviour-preserving refactor), "twin-Cxx-n" = twins/Cxx-n (corrected twin of seed Cxx-n)
 ids = sys.argv[1:] or sorted(os.path.basename(d) for d in glob.glob("refactors/C*-*")) + sorted("twin-" + os.path.basename(d) for d in glob.glob("twins/C*-*"))
 assert subprocess.run(["git", "-C", "/repo", "status", "--porcelain", "--untracked-files=no"], capture_output=True, text=True).stdout.strip() == "", "/repo not clean"
@@ -26,4 +28,5 @@ for s in ids:
     print(s, "silent" if not alarms and not blind else f"FALSE ALARM {sorted(alarms)} / EXIT-2 {sorted(blind)}")
     for pid, ls in list(alarms.items()) + list(blind.items()):
         for l in ls: print("    ", pid, l[:260])
-json.dump(results, open("refactors/results.json", "w"), indent=1, sort_keys=True)
+if not os.environ.get("VERIF_PIDS"):
+    json.dump(results, open("refactors/results.json", "w"), indent=1, sort_keys=True)
